@@ -160,7 +160,7 @@ func anchorRule(c *eng.Ctx, fn *ssa.Function, anchorSuffix string, foreign eng.M
 	// uses: direct reads in fn, or calls into helpers that read the anchor
 	var uses []eng.Site
 	uses = append(uses, p.Sites(fn, use)...)
-	for _, b := range fn.Blocks {
+	for _, b := range eng.BlocksT(fn) {
 		for _, in := range b.Instrs {
 			if cl, ok := in.(*ssa.Call); ok {
 				for _, cal := range p.ModuleCallees(cl) {
@@ -429,7 +429,7 @@ func runC03(c *eng.Ctx) {
 		f := c.Fn("aggregation.DownSamplingMultiSeriesInto")
 		fill := c.One(f, eng.CallTo("aggregation.fillInfBlock"), "fillInfBlock(targetValues)")
 		n := 0
-		for _, b := range f.Blocks {
+		for _, b := range eng.BlocksT(f) {
 			for _, in := range b.Instrs {
 				ia, ok := in.(*ssa.IndexAddr)
 				if !ok || !strings.Contains(ia.X.Type().String(), "float64") {
@@ -597,7 +597,7 @@ func blockFooter(c *eng.Ctx) {
 		role   string
 	}
 	var ws []span
-	for _, b := range w.Blocks {
+	for _, b := range eng.BlocksT(w) {
 		for _, in := range b.Instrs {
 			call, ok := in.(*ssa.Call)
 			if !ok {
@@ -643,7 +643,7 @@ func blockFooter(c *eng.Ctx) {
 	}
 	r := c.Fn("tsdb/tblstore/metricsdata.metricReader.initReader")
 	var rs []span
-	for _, b := range r.Blocks {
+	for _, b := range eng.BlocksT(r) {
 		for _, in := range b.Instrs {
 			call, ok := in.(*ssa.Call)
 			if !ok {
@@ -700,7 +700,7 @@ func fieldDataOnlyForHeldField(c *eng.Ctx) {
 	f := c.Fn("tsdb/tblstore/metricsdata.fieldReader.GetFieldData")
 	facts := p.MustFacts(f)
 	var look *ssa.Lookup
-	for _, b := range f.Blocks {
+	for _, b := range eng.BlocksT(f) {
 		for _, in := range b.Instrs {
 			if l, ok := in.(*ssa.Lookup); ok && l.CommaOk && eng.DependsOnField(l.X, "tsdb/tblstore/metricsdata.fieldReader.fieldIndexes") {
 				look = l
@@ -761,7 +761,7 @@ func distinctUpInputs(c *eng.Ctx) {
 		return eng.DependsOn(v, func(x ssa.Value) bool { return x == ov[0].Instr.(ssa.Value) })
 	}
 	var keyedMaps []ssa.Value
-	for _, b := range f.Blocks {
+	for _, b := range eng.BlocksT(f) {
 		for _, in := range b.Instrs {
 			if mu, ok := in.(*ssa.MapUpdate); ok && isNumber(mu.Key) && fromOv(mu.Key) {
 				keyedMaps = append(keyedMaps, mu.Map)
